@@ -17,7 +17,7 @@ from hexital import Hexital
 
 from .. import planlib, world
 from ..catalogue import as_dict, build, encode, member_name, mk_candles, sample_members, spec_label
-from ..core import Discard, LibError, Violation, run_property
+from ..core import Discard, LibError, Violation, filled_size, run_property
 from ..util import candle_core, freeze, sub_rng, tf_seconds
 
 ID = "C08"
@@ -157,6 +157,7 @@ def execute(trace, ctx=None):
         construction_trimmed = False   # base candles were trimmed before a timeframe manager was built
         compared_reading = False
         label = "+".join(spec_label(m) for m in members)
+        tfs = [m["common"].get("timeframe") for m in members] + [h.get("timeframe")]
 
         def member_objs():
             return list(hx.indicators.values())
@@ -175,8 +176,8 @@ def execute(trace, ctx=None):
                     raise Discard("solo-twin-raised:" + type(exc).__name__)
                 try:
                     given = [_given(m, f) for m, f in zip(members, forms)]
-                    hx = run.call(len(rows) * 6, Hexital, "sim", mk_candles(rows), given, **_hex_kwargs(h))
-                    run.call(len(rows) * 8, hx.calculate)
+                    hx = run.call(filled_size(rows, tfs) * 6, Hexital, "sim", mk_candles(rows), given, **_hex_kwargs(h))
+                    run.call(filled_size(rows, tfs) * 8, hx.calculate)
                 except LibError as e:
                     form = ",".join(sorted(set(forms)))
                     raise Violation("construction-raises", "hexital", e.site, {"error": repr(e.exc), "forms": form})
@@ -198,7 +199,7 @@ def execute(trace, ctx=None):
                 except Exception as exc:  # noqa: BLE001
                     raise Discard("solo-twin-raised:" + type(exc).__name__)
                 try:
-                    run.call(len(delivered) * 8, hx.append, encode(rows, op.get("enc") or "candles") if rows else [])
+                    run.call(filled_size(delivered, tfs) * 8, hx.append, encode(rows, op.get("enc") or "candles") if rows else [])
                 except LibError as e:
                     raise Violation("append-raises", "hexital", e.site, {"error": repr(e.exc)})
                 continue
@@ -206,8 +207,8 @@ def execute(trace, ctx=None):
                 # process restart: only the settings dicts and the raw candles survive
                 try:
                     settings = run.call(1000, lambda: hx.indicator_settings)
-                    hx = run.call(len(delivered) * 6, Hexital, "sim", mk_candles(delivered), settings, **_hex_kwargs(h))
-                    run.call(len(delivered) * 8, hx.calculate)
+                    hx = run.call(filled_size(delivered, tfs) * 6, Hexital, "sim", mk_candles(delivered), settings, **_hex_kwargs(h))
+                    run.call(filled_size(delivered, tfs) * 8, hx.calculate)
                 except LibError as e:
                     raise Violation("restart-from-settings-raises", "hexital", e.site, {"error": repr(e.exc)})
                 if len(hx.indicators) != len(members):
